@@ -93,5 +93,13 @@ example : KeyedDels { (default : World) with dels :=
   simp only [List.mem_cons, List.not_mem_nil, or_false] at hp
   rcases hp with rfl | rfl <;> rfl
 
+/-- claims, at the level of VALUE: a successful reward claim changes no share quantity anywhere (`SV`: every position's
+    shares, every validator's two share totals, every asset record), so what the delegation query reports for ANY
+    delegator, validator and denom — the claimant's own positions included — is exactly what it was (proof:
+    AllianceProofs/StakeNeutral; `KD`: records stored under their own key, an invariant of every history, `L0.keyed`) -/
+theorem claim_changes_no_delegators_value (del : Acct) (v : ValId) (d : Option Denom) (w w' : World) (hk : KD w)
+    (h : step (.claim del v d) w = (.ok (), w')) (del' : Acct) (v' : ValId) (d' : Denom) :
+    qDelegation w' del' v' d' = qDelegation w del' v' d' := claim_changes_no_reported_balance del v d w w' hk h del' v' d'
+
 end C04
 end Alliance
